@@ -49,6 +49,7 @@ type cliInput struct {
 	name string
 	kind int
 	text string // JSON text for inJSON
+	tail string // what follows the text in the file: a newline, or nothing
 	val  any    // parsed value
 }
 
@@ -79,6 +80,12 @@ var cliProgs = []cliProg{
 	{src: `if type=="array" then error("arr") else . end`, compile: true, errOn: isArr, values: true},
 	{src: `error("boom")`, compile: true, errOn: func(any) bool { return true }, values: true},
 	{src: `1, error("x"), 2`, compile: true, errOn: func(any) bool { return true }, values: true},
+	// a program that starts like a file reference, error values that are not strings
+	{src: `@base64`, compile: true, errOn: func(any) bool { return false }, values: true},
+	{src: `@json "v=\(.)"`, compile: true, errOn: func(any) bool { return false }, values: true},
+	{src: `error(null)`, compile: true, errOn: func(any) bool { return true }, values: true},
+	{src: `error({a: 1})`, compile: true, errOn: func(any) bool { return true }, values: true},
+	{src: `if type=="array" then error(false) else . end`, compile: true, errOn: isArr, values: true},
 	{src: `(`, compile: false},
 	{src: `.a |`, compile: false},
 	{src: `1 +`, compile: false},
@@ -225,7 +232,7 @@ func (c *cliCase) newOS(t *simrt.Tape, inputs []cliInput) *simos.OS {
 	for _, in := range c.inputs { // every file exists in every run: only argv differs
 		switch in.kind {
 		case inJSON:
-			o.AddFile(in.name, simos.Regular, []byte(in.text+"\n"))
+			o.AddFile(in.name, simos.Regular, []byte(in.text+in.tail))
 		case inUndec:
 			o.AddFile(in.name, simos.Regular, []byte("\x00\x01\x02garbage\xff\xfe\x00\x00\x13\x37"))
 		case inMissing:
@@ -290,6 +297,10 @@ func (*hcli) Run(rc *core.RunCtx) *core.RunResult {
 		in := cliInput{name: fmt.Sprintf("in%d.%s", i, inKindNames[k]), kind: k}
 		if k == inJSON {
 			in.text = jsonTexts[t.Intn(len(jsonTexts))]
+			in.tail = "\n"
+			if t.Intn(4) == 0 {
+				in.tail = "" // no newline at the end of the file: in raw input mode its last line runs on into the next file
+			}
 			json.Unmarshal([]byte(in.text), &in.val)
 		}
 		c.inputs = append(c.inputs, in)
@@ -416,7 +427,7 @@ func (*hcli) Run(rc *core.RunCtx) *core.RunResult {
 				}
 			case inJSON:
 				if c.rawInput {
-					good = append(good, in.text+"\n")
+					good = append(good, in.text+in.tail)
 				} else {
 					good = append(good, in.val)
 				}
@@ -593,7 +604,7 @@ func (c *cliCase) expected() ([]byte, bool) {
 	case c.slurp && c.rawInput:
 		var sb strings.Builder
 		for _, in := range c.inputs {
-			sb.WriteString(in.text + "\n")
+			sb.WriteString(in.text + in.tail)
 		}
 		inputs = []any{sb.String()}
 	case c.slurp:
@@ -610,7 +621,7 @@ func (c *cliCase) expected() ([]byte, bool) {
 		var sb strings.Builder
 		for _, in := range c.inputs {
 			if in.kind == inJSON {
-				sb.WriteString(in.text + "\n")
+				sb.WriteString(in.text + in.tail)
 			}
 		}
 		all := strings.TrimSuffix(sb.String(), "\n")
